@@ -122,6 +122,28 @@ pub fn generate(rng: &mut Rng, fault_free: bool) -> K18 {
             lines.push((t, wire::hex(&wire::df17(5, addr, me))));
             t += 150_000 + rng.below(250_000);
         }
+        // some aircraft fall silent for longer than the expiry time and come back: they are
+        // "newly added" a second time (statistics), with a fresh record (table)
+        if filter_time <= 3 && to < dur_a && rng.chance(0.6) {
+            let mut t = to + (filter_time + 1) * 1_000_000 + rng.below(500_000);
+            for k in 0..3 + rng.below(4) {
+                let me = match k % 3 {
+                    0 => {
+                        odd = !odd;
+                        let (yz, xz) = wire::cpr_encode(rx.0 + dlat, rx.1 + dlon, odd);
+                        wire::me_airborne_position(11, 0, 0, wire::ac12_q(5_000 + 2_000 * slot as i32), false, odd, yz, xz)
+                    }
+                    1 => wire::me_identification(4, 0, &cs),
+                    _ => {
+                        odd = !odd;
+                        let (yz, xz) = wire::cpr_encode(rx.0 + dlat, rx.1 + dlon, odd);
+                        wire::me_airborne_position(11, 0, 0, wire::ac12_q(5_000 + 2_000 * slot as i32), false, odd, yz, xz)
+                    }
+                };
+                lines.push((t, wire::hex(&wire::df17(5, addr, me))));
+                t += 150_000 + rng.below(250_000);
+            }
+        }
     }
     let bulk = if !fault_free && rng.chance(0.006) { 10_000 + rng.usize_below(400) } else { 0 };
     let filter_time = if bulk > 0 || many { 1_000_000 } else { filter_time };
@@ -534,6 +556,15 @@ pub fn execute(sc: &K18) -> Outcome {
     }
     if out.inconclusive {
         return out;
+    }
+    if total_added as usize > {
+        let mut seen = std::collections::BTreeSet::new();
+        for (_, hex) in &sc.lines {
+            seen.insert(hex.get(2..8).unwrap_or("").to_string());
+        }
+        seen.len() + usize::from(sc.bulk > 0)
+    } {
+        out.probe("aircraft_re_added_after_expiry");
     }
     if expired_any {
         out.probe("aircraft_expired_from_table");
